@@ -133,7 +133,7 @@ fn prop_fiin(c: &FiinCase, ctx: &Ctx) -> PResult {
     };
     ensure_eq!(back.entries.len(), fi.entries.len(), "fiin-reparse-count", "entries after re-parse");
     for (a, b) in back.entries.iter().zip(&fi.entries) {
-        ensure!(a.file_name == b.file_name && a.file_size == b.file_size && a.sha1[..20] == b.sha1[..20], "fiin-reparse-differs", "entry {:?} re-parsed as {:?}", b, a);
+        ensure!(a.file_name == b.file_name && a.file_size == b.file_size && a.sha1.get(..20).is_some() && a.sha1.get(..20) == b.sha1.get(..20), "fiin-reparse-differs", "entry {:?} re-parsed as {:?}", b, a);
     }
     ctx.classf(format!("fiin:files:{}", c.files.len()));
     for (n, l, _, _) in &c.files {
